@@ -5,7 +5,7 @@
 set -u
 PATCH=$(realpath "$1"); shift
 V=$(cd "$(dirname "$0")/.." && pwd)
-D=$(mktemp -d /tmp/seedtest-XXXXXX)
+D=$(mktemp -d /root/work/seedtest-XXXXXX)
 git -C /repo archive HEAD | tar -x -C "$D"
 if ! (cd "$D" && patch -p1 -s < "$PATCH"); then echo "PATCH-DOES-NOT-APPLY $PATCH"; rm -rf "$D"; exit 2; fi
 for P in "$@"; do
